@@ -21,7 +21,7 @@ inductive Pc where
   -- installer (`else`)
   | createMap | removeOld | attach | objPin | excRmtree
   -- LockFile(...)  and  FMMULock(...)
-  | mbxOpen | mbxWrite | mbxReopen | fmOpen | fmWrite | fmLock | fmRead | fmFix | fmTrunc | fmSet | fmUnlock
+  | mbxOpen | mbxWrite | mbxReopen | fmOpen | fmLock | fmRead | fmFix | fmTrunc | fmSet | fmUnlock
   | running
   -- `finally`
   | removeMember | rmdir | detach | removePin | mbxRemove | fmRLock | fmRRead | fmRClear | fmRUnlock
@@ -100,9 +100,10 @@ def fmInit : List Nat := 2 :: List.replicate (fmSize - 1) 0
 def fmZero : List Nat := List.replicate fmSize 0
 
 /-- the `while addrmap[addr // 8] & (1 << addr % 8): addr = randrange(1, 1 << 9)` loop: first scripted
-draw that is free, afterwards 1, 2, 3, … (none: the real loop never ends) -/
+draw that is free (values outside `randrange`'s range never occur and are skipped), afterwards 1, 2, 3, …
+(none: the real loop never ends) -/
 def pickNo (buf : List Nat) : List Nat → Option Nat
-  | d :: r => if bitSet buf d then pickNo buf r else some d
+  | d :: r => if 1 ≤ d && d < fmProcs && !bitSet buf d then some d else pickNo buf r
   | [] => (List.range fmProcs).find? fun n => n ≥ 1 && !bitSet buf n
 
 def emit (p : Proc) (t : String) : Proc := { p with trace := p.trace ++ [t] }
@@ -111,6 +112,10 @@ def emit (p : Proc) (t : String) : Proc := { p with trace := p.trace ++ [t] }
 `get_fmmu_addr` handed out after `k` calls (`base_addr += 1 << 12`) -/
 def winBase (n : Nat) : Nat := n * fmWindow
 def lastAddr (n k : Nat) : Nat := n * fmWindow + k * fmGroup
+
+/-- `get_next_addr` succeeds while the address stays inside the process's range -/
+def maxGroups : Nat := fmWindow / fmGroup - 1
+def granted (p : Proc) : Nat := min p.nAddr maxGroups
 
 /-! ### one operation of participant `i` -/
 
@@ -178,16 +183,13 @@ def stepFiles (s : Sys) (i : Nat) (p : Proc) : Sys :=
   | .mbxOpen =>
     if s.mbx then setP s i { emit p "mbx_open:exists" with pc := .mbxReopen }
     else setP { s with mbx := true } i { emit p "mbx_open:created" with pc := .mbxWrite }
-  | .mbxWrite => setP s i { emit p "mbx_write" with pc := .fmOpen }
+  | .mbxWrite => setP s i { emit p "mbx_trunc" with pc := .fmOpen }   -- `os.ftruncate(fd, maximum - minimum + 1)`
   | .mbxReopen =>
     if s.mbx then setP s i { emit p "mbx_reopen:ok" with pc := .fmOpen }
     else setP s i { emit p "mbx_reopen:enoent" with pc := .failed }
   | .fmOpen =>
-    match s.fm with
-    | none => setP { s with fm := some [] } i { emit p "fm_open:created" with pc := .fmWrite }
-    | some _ => setP s i { emit p "fm_open:exists" with pc := .fmLock }
-  | .fmWrite =>
-    setP { s with fm := some (pwrite0 (s.fm.getD []) fmInit) } i { emit p "fm_write" with pc := .running, fmNo := 1 }
+    -- `os.open(O_CREAT | O_RDWR)`: creates an empty file if there is none; no separate creator path
+    setP { s with fm := some (s.fm.getD []) } i { emit p "fm_open" with pc := .fmLock }
   | .fmLock =>
     if canLock s i then setP { s with fmLock := some i } i { emit p "fm_lock" with pc := .fmRead } else s
   | .fmRead =>
@@ -203,11 +205,15 @@ def stepFiles (s : Sys) (i : Nat) (p : Proc) : Sys :=
       setP { s with fm := some (pwriteByte (s.fm.getD []) (n / 8) v) } i
         { emit p s!"fm_pwrite:{n / 8}:{v}" with pc := .fmUnlock, fmNo := n }
     | none => s
-  | .fmUnlock => setP { s with fmLock := none } i { emit p "fm_unlock" with pc := .running }
+  | .fmUnlock =>
+    -- the body: `nAddr` calls of `get_fmmu_addr`; a call beyond the process's range raises, and the
+    -- `finally` block of `run` is entered with that exception
+    if p.nAddr ≤ maxGroups then setP { s with fmLock := none } i { emit p "fm_unlock" with pc := .running }
+    else setP { s with fmLock := none } i { emit p "fm_unlock" with pc := .removeMember, exc := true }
   | _ => s
 
 /-- the process number `FMMULock.remove` computes from `base_addr` after `nAddr` calls of `get_next_addr` -/
-def rmNo (p : Proc) : Nat := lastAddr p.fmNo p.nAddr / fmWindow
+def rmNo (p : Proc) : Nat := lastAddr p.fmNo (granted p) / fmWindow
 
 /-- the `finally` block of `run` -/
 def stepExit (s : Sys) (i : Nat) (p : Proc) : Sys :=
@@ -223,7 +229,7 @@ def stepExit (s : Sys) (i : Nat) (p : Proc) : Sys :=
   | .rmdir =>
     match s.lockdir with
     | some [] => setP { s with lockdir := none } i { emit p "rmdir:ok" with pc := .detach }
-    | _ => setP s i { emit p "rmdir:fail" with pc := .done }
+    | _ => setP s i { emit p "rmdir:fail" with pc := if p.exc then .failed else .done }
   | .detach => setP { s with attached := none } i { emit p "detach" with pc := .removePin }
   | .removePin =>
     match s.pin with
@@ -260,7 +266,7 @@ def run (s : Sys) (sched : List Nat) : Sys := sched.foldl step s
 `rename` until its `os.remove`) -/
 def Pc.member : Pc → Bool
   | .objGet1 | .objGet2 | .excRemove | .createMap | .removeOld | .attach | .objPin | .excRmtree
-  | .mbxOpen | .mbxWrite | .mbxReopen | .fmOpen | .fmWrite | .fmLock | .fmRead | .fmFix | .fmTrunc | .fmSet
+  | .mbxOpen | .mbxWrite | .mbxReopen | .fmOpen | .fmLock | .fmRead | .fmFix | .fmTrunc | .fmSet
   | .fmUnlock | .running | .removeMember => true
   | _ => false
 
@@ -275,7 +281,7 @@ def disjoint (a n b m : Nat) : Bool := a + n ≤ b || b + m ≤ a
 /-- logical addresses a running participant may use: its process window start up to the end of the
 last sync-group block `get_fmmu_addr` handed out -/
 def winLo (p : Proc) : Nat := winBase p.fmNo
-def winLen (p : Proc) : Nat := (p.nAddr + 1) * fmGroup
+def winLen (p : Proc) : Nat := (granted p + 1) * fmGroup
 
 def EthertypesDistinct (s : Sys) : Prop :=
   ∀ i j, i < s.procs.length → j < s.procs.length → i ≠ j →
